@@ -198,12 +198,9 @@ class Policy:
             return False
 
         ast = self[sec][ptype]
-        old_rules_index = []
 
         for i, old_rule in enumerate(old_rules):
-            if old_rule in ast.policy and old_rule not in old_rules[:i]:
-                old_rules_index.append(ast.policy.index(old_rule))
-            else:
+            if old_rule not in ast.policy or old_rule in old_rules[:i]:
                 return False
 
         for i, new_rule in enumerate(new_rules):
@@ -215,11 +212,9 @@ class Policy:
             for old_rule, new_rule in zip(old_rules, new_rules):
                 if old_rule[priority_index] != new_rule[priority_index]:
                     raise Exception("New rule should have the same priority with old rule.")
-            for idx, new_rule in zip(old_rules_index, new_rules):
-                ast.policy[idx] = new_rule
-        else:
-            for idx, old_rule, new_rule in zip(old_rules_index, old_rules, new_rules):
-                ast.policy[idx] = new_rule
+
+        for old_rule, new_rule in zip(old_rules, new_rules):
+            ast.policy[ast.policy.index(old_rule)] = new_rule
 
         return True
 
